@@ -25,3 +25,12 @@ func (cm *Manager) VerifAdvance(d time.Duration) { cm.searchCache.VerifAdvance(d
 func VerifNewManager(capacity int, ttl time.Duration) *Manager {
 	return &Manager{searchCache: NewSearchCache(capacity, ttl), enabled: true}
 }
+
+// VerifAdvance ages every item of the TTL map by d (logical clock for verification harnesses).
+func (c *Cache) VerifAdvance(d time.Duration) {
+	c.mutex.Lock()
+	defer c.mutex.Unlock()
+	for _, it := range c.items {
+		it.ExpiresAt = it.ExpiresAt.Add(-d)
+	}
+}
